@@ -31,7 +31,27 @@ func (g *apiGen) emitAs(op, obs string) {
 	g.stmt = nil
 }
 
+// values real traffic is full of (a cache, an interning table or a fast path keyed on them is invisible to uniformly
+// random values): ethertypes, well-known ports, IP protocol numbers
+var wellKnown16 = []uint64{0x0800, 0x0806, 0x86dd, 0x88cc, 0x8100, 0x8847, 53, 67, 68, 80, 443, 6653}
+var wellKnown8 = []uint64{1, 2, 6, 17, 47, 58, 132}
+
+func wellKnownFor(max uint64, pick func(int) int) (uint64, bool) {
+	switch max {
+	case 0xffff:
+		return wellKnown16[pick(len(wellKnown16))], true
+	case 0xff:
+		return wellKnown8[pick(len(wellKnown8))], true
+	}
+	return 0, false
+}
+
 func (g *apiGen) edge(max uint64) uint64 {
+	if g.c.rng.Intn(4) == 0 {
+		if v, ok := wellKnownFor(max, g.c.rng.Intn); ok {
+			return v
+		}
+	}
 	switch g.c.rng.Intn(7) {
 	case 0:
 		return 0
